@@ -316,7 +316,9 @@ def gen_read(rng, tree, systems, hot=None):
         else:
             path = pick(rng, leaves)
             date = PW.rand_date(rng)
-        route = pick(rng, ["a", "a", "c", "d"])
+        route = pick(rng, ["a", "a", "a_instant", "a_period", "a_year", "c", "d"])
+        if route == "a_year" and chance(rng, 0.7):
+            date = date[:4] + "-01-01"
         return ["read", sysid, route, list(path), date]
     date = PW.rand_date(rng, 2005, 2021)
     kind = weighted(rng, [("str", 3), ("enum", 2), ("enumarray", 2), ("nested", 2), ("date", 4)])
@@ -468,8 +470,17 @@ def asof_child(tree_node, date_text):
 def read_scalar(system, route, path, date, res):
     """Returns ('val', x) | ('undef',) | ('exc', name)."""
     try:
-        if route == "a":
-            node = system.get_parameters_at_instant(date)
+        if route.startswith("a"):
+            # the instant may be given as text, Instant, Period (its start counts) or,
+            # on 1 January, as a bare year
+            arg = date
+            if route == "a_instant":
+                arg = periods.instant(date)
+            elif route == "a_period":
+                arg = periods.period(f"day:{date}:3")
+            elif route == "a_year" and date[5:] == "01-01":
+                arg = int(date[:4])
+            node = system.get_parameters_at_instant(arg)
             for part in path:
                 node = getattr(node, part)
             return ("val", float(node))
